@@ -19,7 +19,7 @@ META = {
                    "per-dimension product kernel on the grid - with DIFFERENT grid sizes and lengthscales per dimension; the "
                    "inducing-point kernel equals K_xz K_zz^-1 K_zx (+ diagonal correction), its training objective equals the Titsias "
                    "collapsed bound and its predictions the dense conditional on the Nystrom matrix.",
-    "bounds": {"quick": "t=2 tasks, rank 1; grids of 5-7 points, d<=2 (sizes 5x6); interior, first and last cells; SGPR n=2, M<=2, m=1",
+    "bounds": {"quick": "t=2 tasks, rank 1; grids of 5-7 points, d<=2 (sizes 5x6); interior, first and last cells; SGPR n=2, M<=2, m=1; RFF kernel 2x3, d=2, 2 features: full, root path, diagonal and cross-covariance diagonal",
                "thorough": "more cells, grid sizes, SGPR M=2 with/without diagonal correction"},
     "outside": ["the interpolated kernel converges to the base kernel as the grid is refined (asymptotic, analytic)",
                 "Toeplitz / FFT path (use_toeplitz(True))", "CG-selected paths", "RFF predictive covariance (Cholesky of a matrix of trigonometric polynomials); that the random features approximate the RBF kernel (probabilistic)",
